@@ -509,14 +509,14 @@ func init() {
 	}
 	intrinsics["(*"+ModPath+"/logging.logger).Crit"] = func(e *Engine, fr *frame, a []Value) Value {
 		m, _ := e.concStr(a[1])
-		panic(targetPanic{e.mkStr("logging.Crit: " + m)})
+		panic(targetPanic{v: e.mkStr("logging.Crit: " + m)})
 	}
 	intrinsics[lg+"Crit"] = func(e *Engine, fr *frame, a []Value) Value {
 		m, _ := e.concStr(a[0])
-		panic(targetPanic{e.mkStr("logging.Crit: " + m)})
+		panic(targetPanic{v: e.mkStr("logging.Crit: " + m)})
 	}
 	intrinsics["os.Exit"] = func(e *Engine, fr *frame, a []Value) Value {
-		panic(targetPanic{e.mkStr("os.Exit")})
+		panic(targetPanic{v: e.mkStr("os.Exit")})
 	}
 
 	// string-producing formatters of common types: an opaque token
